@@ -110,18 +110,11 @@ func (fsm *FSM) GetFSMInstance(dkgRoundID string, createIfMissing bool) (*state_
 		if !createIfMissing {
 			return nil, fmt.Errorf("no FSM instance found for the given dkgID %s", dkgRoundID)
 		}
+		// the new round is kept in memory only: the caller stores it once a message for it has been
+		// accepted, so a refused message with an unknown round id leaves nothing behind
 		fsmInstance, err = state_machines.Create(dkgRoundID)
 		if err != nil {
 			return nil, fmt.Errorf("failed to create FSM instance: %w", err)
-		}
-
-		bz, err := fsmInstance.Dump()
-		if err != nil {
-			return nil, fmt.Errorf("failed to Dump FSM instance: %w", err)
-		}
-
-		if err := fsm.SaveFSM(dkgRoundID, bz); err != nil {
-			return nil, fmt.Errorf("failed to SaveFSM: %w", err)
 		}
 	}
 
